@@ -47,6 +47,7 @@ def requirements(tier):
             'compared_extra_classes': 10000 if q else 120000,
             'compared_container_swap': 5000 if q else 60000,
             'compared_bool_fix': 300 if q else 4000,
+            'lone_class_models': 500 if q else 7000,
             'both_ok': 15000 if q else 200000,
             'both_fail': 15000 if q else 200000}
 
@@ -142,6 +143,10 @@ def permute_class_mappings(nspec, value, rng, failing):
                 if k[0] != 's':
                     is_class = False
                     break
+                if k[2] in (args.get('_yatiml_extra') or {}):
+                    # read off the loaded value: it arrived as an extra
+                    extras.add(k[2])
+                    continue
                 under = k[2].replace('-', '_')
                 # a dashed key stands in for the underscored parameter only
                 # when that is not itself present; otherwise it is an extra
@@ -305,6 +310,63 @@ def shard(ctx):
                 msp, what = D.mutate(nspec, rng, cn, kp)
                 run_case(ctx, spec, msp, rng.choice(D.STYLES),
                          rng.getrandbits(32))
+    lone_class_cases(ctx, rng, ctx.budget(600, 8000))
+
+
+def lone_class_cases(ctx, rng, n):
+    """Models with exactly one registered class: registering unrelated
+    classes must not change how a tagged / untagged node of it is read."""
+    from vlib import modelgen as G
+    from vlib import nodes as N
+    made = 0
+    tries = 0
+    while made < n and tries < n * 20:
+        tries += 1
+        spec = G.gen_model(rng, 'unamb')
+        plains = [c for c in spec['classes'] if c.get('kind') == 'plain'
+                  and not c.get('bases') and not c.get('parsed')
+                  and all(isinstance(p['type'], str) for p in c['params'])]
+        if not plains:
+            continue
+        c = copy.deepcopy(rng.choice(plains))
+        for k in ('recognize', 'savorize', 'sweeten', 'word_attr'):
+            c.pop(k, None)
+        if rng.random() < 0.25:
+            c['abc'] = True
+        lone = {'classes': [c], 'doc_type': rng.choice(
+            [['cls', c['name']], ['list', ['cls', c['name']]],
+             ['dict', 'str', ['cls', c['name']]]]), 'profile': 'lone'}
+        try:
+            m = H.model_of(lone)
+        except Exception:
+            continue
+        lone = H.clean_spec(lone)
+        made += 1
+        ctx.count('lone_class_models')
+        g = V.Gen(m, rng, ('look',), finite=True)
+        cc = copy.deepcopy(lone)
+        cc['classes'][0].pop('abc', None)
+        mm = H.model_of(cc)
+        gg = V.Gen(mm, rng, ('look',), finite=True)
+        try:
+            v = gg.instance(c['name'], 2)
+        except (V.NoValue, RecursionError):
+            continue
+        inner = D.spec_of(D.proj(mm, v))
+        for tag in (None, '!Nonsense', '!' + c['name'], '!ZUnrelatedA',
+                    '!Path'):
+            node = inner if tag is None else inner[:2] + [tag]
+            dt = lone['doc_type']
+            if dt[0] == 'list':
+                node = ['seq', [node, node], S_SEQ]
+            elif dt[0] == 'dict':
+                node = ['map', [[N.s_str('k'), node]], S_MAP]
+            run_case(ctx, lone, node, rng.choice(['block', 'flow']),
+                     rng.getrandbits(32), only='extra_classes')
+
+
+S_SEQ = 'tag:yaml.org,2002:seq'
+S_MAP = 'tag:yaml.org,2002:map'
 
 
 def replay(ctx, case):
